@@ -5,7 +5,7 @@ CONFIG = dict(
     drv="drv_c13",
     lean_modules=["MahfModel.Props.C13", "MahfModel.Props.C13State"],
     namespaces=["MahfModel.Props.C13"],
-    shrink_lists=["pop", "run", "scope"],
+    shrink_lists=["pop", "run", "scope", "bscope", "then", "else"],
     level="proof",
     rule=("(1) functional helpers, exhaustive small scope: identity list of length n<=6 (thorough 7) x every injective index "
           "tuple of length 2..n for circular_swap and circular_swap2 (same call, both outputs); every (start, end, index) in "
@@ -28,14 +28,17 @@ CONFIG = dict(
           "carrying a different value; `(mutdefault ..)`: the default driver `mutation()` with a user-side Mutation on stacks of height "
           "1..3, all succeeding or one failing (first / middle / last individual). (4) whole configurations on ONE State, "
           "`(state KIND SEED pop (run ITEM*)+)` with ITEM = `(m ID P1 RM)` (an instance of KIND in {normal, uniform, spread, bitflip, bits, scramble} under "
-          "identifier Global / A / B) | `(scope ITEM*)` | `(loop K ITEM*)`: every run is built with the real `Configuration::builder()` (Scope::new, Loop::new + "
-          "LessThanN::iterations) and executed by `Configuration::run` on the SAME State; a snapshot component behind every instance records the population after each "
+          "identifier Global / A / B) | `(scope ITEM*)` | `(loop K ITEM*)` | `(if C ITEM*)` | `(ifelse C (then ITEM*) (else ITEM*))` with C = t / f (the real RandomChance condition with "
+          "probability 1 / 0) | `bscope` / `bwhile` / `bif` / `bifelse` (the same constructs through the builder's scope_ / while_ / if_ / if_else_ closures): every run is built with the real "
+          "`Configuration::builder()` (Scope::new, Loop::new + LessThanN::iterations, Branch::new, Branch::new_with_else, resp. the builder methods) and executed by `Configuration::run` on the SAME State; a snapshot component behind every instance records the population after each "
           "execution. Shapes: the State used again by a later configuration with other values (rate 1->0, 0->1, invalid->valid, up to 4 runs); an instance inside a "
           "Scope (depth 1..3) while the enclosing block holds an instance of the same type and identifier with other values, the enclosing instance executing again "
           "after the scope; scopes inside loops (entered and initialised in every pass); instances with different identifiers side by side, nested and across runs; "
-          "seeded random configurations (1..3 runs, depth <= 3, one set of values per level and identifier). Each execution is judged against the parameters of ITS OWN "
-          "instance (O) and against what the model's registry stack holds (K). Instances of one type and identifier with different values at ONE level (the later init "
-          "wins) go to `!malformed`. A case is non-trivial if its input has at least 3 elements in some "
+          "branches (sites `..+branch`): the instance in the if arm / the else arm of if_ / if_else_ with the condition true / false, the other arm empty or holding another identifier, on a fresh state, "
+          "inside a Scope under an enclosing instance of the same type and identifier with other values (rate 1 outside, 0 in the arm and vice versa), after an earlier run that left other values, inside and around loops, "
+          "branches in branches; seeded random configurations (1..3 runs, depth <= 3, scopes / loops / branches built either way, one set of values per level and identifier). Each execution is judged against the parameters of ITS OWN "
+          "instance (O) and against what the model's registry stack holds (K). Instances of one type and identifier with different values at ONE level (loops and BOTH arms of a branch belong to the level of the "
+          "enclosing block; the later init wins) go to `!malformed`. A case is non-trivial if its input has at least 3 elements in some "
           "list; distinct = distinct canonical input."),
     nontrivial=lambda inp: re.search(r"\((?:[^()\s]+ ){2,}[^()\s]+\)", inp) is not None,
     trusted_base=[
@@ -44,7 +47,8 @@ CONFIG = dict(
         "rand's samplers are not modelled: every random choice is an explicit witness recovered from the output",
         "State registry (insert / set_value / get_value of MutationRate<T>, MutationStrength<T>) represented by a two-field record per component instance in the single-component cases, "
         "and by a stack of association lists keyed by (component type, identifier, rate|strength) in the configuration cases (insert = top-most registry, read = first registry that holds the key, "
-        "Scope = push / init body / execute body / pop); Block, Loop (n passes), Scope and Configuration::run represented by their init / execute order, conditions and Iterations not modelled"],
+        "Scope = push / init body / execute body / pop); Block, Loop (n passes), Branch (init: if body then else body; execute: the arm the condition selects), Scope and Configuration::run represented by their init / execute order; "
+        "conditions and Iterations not modelled: a Loop is its pass count, a Branch condition the constant it evaluates to (harness: RandomChance with probability 1 / 0)"],
     assumptions=["SplitMix64-seeded generator; mahf's Random seeded ChaCha12 per case",
                  "floats produced by arithmetic compared with relative tolerance 1e-9"],
 )
@@ -70,9 +74,10 @@ CONFIG.update(
                 "parameter states across the life of a State (Model/VariationState, Props/C13State): `init` of an instance makes its constructor values the ones its execute reads on EVERY "
                 "registry stack (init_establishes_own_parameters), leaves instances of another type or identifier and all parent registries alone (init_leaves_other_instances), an initialised instance executes as on a "
                 "fresh state whatever the state held (execution_independent_of_prior_state), an instance with rate 0 is the identity on any state (rate_zero_identity_on_any_state), a successful execution keeps "
-                "count and dimensions on any state (dimension_kept_on_any_state); for whole configurations — blocks, loops, scopes to any depth, any identifiers, several Configuration::run on one state, "
+                "count and dimensions on any state (dimension_kept_on_any_state); for whole configurations — blocks, loops, scopes and branches (if_ / if_else_, either arm, condition true or false) to any depth, any identifiers, several Configuration::run on one state, "
                 "any starting state — every execution of every instance reads its own values provided instances of one type and identifier at ONE level were given the same values "
-                "(every_execution_reads_own_parameters, rate_zero_instance_reads_zero), a run without a failing guard executes exactly the instances in program order with loops unrolled (run_executes_unrolled_instances), and a block with all its scopes leaves the registry stack as it found it (scope_leaves_enclosing_state)."
+                "(every_execution_reads_own_parameters, rate_zero_instance_reads_zero), a run without a failing guard executes exactly the instances in program order with loops unrolled (run_executes_unrolled_instances), the init of a block with a branch establishes the own parameters of every instance of BOTH arms on any state (branch_init_establishes_both_arms) and a run executes exactly the arm the condition selects, "
+                "each execution with its own values (branch_runs_selected_arm_with_own_parameters), and a block with all its scopes leaves the registry stack as it found it (scope_leaves_enclosing_state)."
                 " Tied to /repo by running the real helpers exhaustively in a small "
                 "scope and the real components on seeded populations, diffing against the compiled model (K) and evaluating the "
                 "property predicate on the implementation's output (O)."),
@@ -88,7 +93,7 @@ CONFIG.update(
                 "first Err of a user's `mutate` before pushing the popped population back, so the population is lost and the stack is one lower. "
                 "Degenerate inputs modelled and routed to `!malformed`: InsertionMutation panics on an empty solution (gen_range(0..0)), both DE crossovers panic for a "
                 "zero-dimensional problem as soon as there is a pair. "
-                "Configuration cases: the model covers the parameter registries and the guard outcome of every execution, not the loop conditions (a Loop is its pass count; nested loops are generated only "
+                "Configuration cases: the model covers the parameter registries and the guard outcome of every execution, not the loop / branch conditions (a Loop is its pass count, a Branch condition a constant true / false realised by RandomChance(1 / 0); conditions that change between passes are not generated; nested loops are generated only "
                 "with a Scope between them) nor failing `init`s (none of the six components can fail there); two instances of one type and identifier with different values in one block share their states by design "
                 "(the later init wins) - modelled, routed to `!malformed`, not judged."),
     timeout_quick=600,
